@@ -162,7 +162,17 @@ impl<'p, 'a> Evaluator<'a, 'p> {
             }
         }
 
-        this.run()?;
+        if let Err(e) = this.run() {
+            // Thunks whose evaluation was still in progress go back to pending,
+            // so that evaluating them again repeats the computation instead of
+            // reporting an infinite recursion.
+            for state in this.state_stack.drain(..) {
+                if let State::GotThunk(thunk, pending) = state {
+                    thunk.restore_pending(pending);
+                }
+            }
+            return Err(e);
+        }
 
         let output = match output_kind {
             OutputKind::Value => EvalOutput::Value(this.value_stack.pop().unwrap()),
@@ -202,7 +212,8 @@ impl<'p, 'a> Evaluator<'a, 'p> {
                         self.value_stack.push(value);
                     }
                     ThunkState::Pending(pending) => {
-                        self.state_stack.push(State::GotThunk(thunk));
+                        self.state_stack
+                            .push(State::GotThunk(thunk, pending.clone()));
                         match pending {
                             PendingThunk::Expr { expr, env } => {
                                 self.state_stack.push(State::Expr {
@@ -243,7 +254,7 @@ impl<'p, 'a> Evaluator<'a, 'p> {
                         return Err(self.report_error(EvalErrorKind::InfiniteRecursion));
                     }
                 },
-                State::GotThunk(thunk) => {
+                State::GotThunk(thunk, _) => {
                     let value = self.value_stack.last().unwrap();
                     thunk.set_done(value.clone());
                 }
